@@ -30,6 +30,8 @@ func c12Expr(x ast.Expr) string {
 		return c12Expr(v.X) + v.Op.String() + c12Expr(v.Y)
 	case *ast.BasicLit:
 		return v.Value
+	case *ast.IndexExpr:
+		return c12Expr(v.X) + "[" + c12Expr(v.Index) + "]"
 	}
 	return "?"
 }
@@ -208,6 +210,76 @@ func init() {
 				passes = append(passes, fmt.Sprintf("(%s, %s, %s)", asc, leanStr(strings.Join(calls, "+")), fwd))
 			}
 		}
+		// 2b. skeleton of each sweep body: which statements end in `continue` and where the cache is set, in order.
+		//     "if:<cond>:continue" / "call:<lhs>=<call>" / "cache" (ResourceCache.SetDefault) / "if:<cond>" / "other"
+		var skel []string
+		if fd := e.funcDecl(d, "ResourceUpdateExecutorImpl", "LeveledUpdateBatch"); fd != nil && fd.Body != nil {
+			for _, st := range fd.Body.List {
+				fs, ok := st.(*ast.ForStmt)
+				if !ok {
+					continue
+				}
+				var items []string
+				for _, in := range fs.Body.List {
+					rs, ok := in.(*ast.RangeStmt)
+					if !ok {
+						continue
+					}
+					for _, b := range rs.Body.List {
+						switch v := b.(type) {
+						case *ast.IfStmt:
+							it := "if:" + c12Expr(v.Cond)
+							if n := len(v.Body.List); n > 0 {
+								if br, ok := v.Body.List[n-1].(*ast.BranchStmt); ok && br.Tok == token.CONTINUE {
+									it += ":continue"
+								}
+							}
+							items = append(items, it)
+						case *ast.AssignStmt:
+							if len(v.Rhs) == 1 {
+								if c, ok := v.Rhs[0].(*ast.CallExpr); ok {
+									cs := c12Expr(c)
+									if strings.HasPrefix(cs, "SetDefault(") {
+										items = append(items, "cache")
+									} else {
+										items = append(items, "call:"+cs)
+									}
+									continue
+								}
+							}
+							items = append(items, "other")
+						case *ast.ExprStmt:
+							if c, ok := v.X.(*ast.CallExpr); ok {
+								cs := c12Expr(c)
+								if strings.HasPrefix(cs, "Infof(") || strings.HasPrefix(cs, "Info(") {
+									continue // log line
+								}
+								items = append(items, "do:"+c12Expr(c.Fun))
+								continue
+							}
+							items = append(items, "other")
+						default:
+							items = append(items, "other")
+						}
+					}
+				}
+				skel = append(skel, strings.Join(items, " ; "))
+			}
+		}
+		fmt.Fprintf(&e.out, "/-- statement skeleton of the body of each sweep of LeveledUpdateBatch -/\n")
+		fmt.Fprintf(&e.out, "def passSkeleton : List String := %s\n\n", c12StrList(skel))
+		// isUpdateErrIgnored: the predicates that make an error ignored
+		var ign []string
+		if fd := e.funcDecl(d, "ResourceUpdateExecutorImpl", "isUpdateErrIgnored"); fd == nil || fd.Body == nil {
+			e.fail("isUpdateErrIgnored not found")
+		} else {
+			for _, st := range fd.Body.List {
+				if is, ok := st.(*ast.IfStmt); ok {
+					ign = append(ign, c12Expr(is.Cond))
+				}
+			}
+		}
+		fmt.Fprintf(&e.out, "def ignoredErrConds : List String := %s\n\n", c12StrList(ign))
 		fmt.Fprintf(&e.out, "/-- (level index ascending, updater method called, levels iterated forward) -/\n")
 		fmt.Fprintf(&e.out, "def passes : List (Bool × String × Bool) := [%s]\n\n", strings.Join(passes, ", "))
 
